@@ -444,6 +444,26 @@ def run(rep, tier, seed):
             if a != b:
                 cdis.append({"class": mn, "field": n, "model": got[n][:80], "impl": enc_value(getattr(obj, n))[:80], "case": replay})
                 break
+    # ---- presentation of a float must be a function of the wire value alone (zero keeps its sign whatever was converted before)
+    from aioesphomeapi.model_conversions import SUBSCRIBE_STATES_RESPONSE_TYPES
+    seqs = [[0.0, -0.0, 0.0, -0.0], [-0.0, 0.0, -0.0], [1.5, -0.0, 0.0, 1.5, -1.5], [float("inf"), -0.0, float("-inf"), 0.0]]
+    hist_bad = None
+    for wire, mdl in SUBSCRIBE_STATES_RESPONSE_TYPES.items():
+        for fd in wire.DESCRIPTOR.fields:
+            if fd.type != fd.TYPE_FLOAT or fd.is_repeated or fd.name not in {f.name for f in dataclasses.fields(mdl)}:
+                continue
+            for seq in seqs:
+                got = [getattr(mdl.from_pb(wire(**{fd.name: x})), fd.name) for x in seq]
+                rep.case(("float-history", wire.__name__, fd.name, tuple(struct.pack(">f", x) for x in seq)), True,
+                         sample={"float_history": f"{mdl.__name__}.{fd.name}", "wire": [repr(x) for x in seq], "presented": [repr(x) for x in got]})
+                rep.bump("float-history")
+                if hist_bad is None and any(not same_value(float(g), float(x)) for g, x in zip(got, seq)):
+                    hist_bad = (mdl.__name__, fd.name, seq, got)
+    if hist_bad is not None:
+        cn, fn, seq, got = hist_bad
+        rep.violation("C14/float/history", f"{cn}.{fn} for the wire values {[repr(x) for x in seq]} converted in this order is presented as {[repr(g) for g in got]} "
+                      "(zero and the infinities are presented unchanged - the sign of zero included - whatever was converted before)",
+                      {"kind": "impl-case", "variant": "float-history", "class": cn, "field": fn, "sequence": [repr(x) for x in seq]})
     # ---- the same conversions as the public client hands them out
     for k in range(2 if tier == "quick" else 12):
         bad, n = client_conversion_case(seed + 1000 + k, 3 if tier == "quick" else 6)
